@@ -207,7 +207,9 @@ PROPS["C03"] = dict(
               relevant=heads("build", "adopt", "stable", "stablepre", "stablerew", "stablerew2", "adump", "wfcheck"), nontrivial=nt_adf),
           Job("adf", 0, 1, size=2, extra=("exh2",), relevant=heads("build", "adopt", "stable", "stablepre", "stablerew", "stablerew2", "adump", "wfcheck"), nontrivial=lambda st: True, label="exhaustive-2-statements"),
           Job("adf", 200, 8000, size=5, size_thorough=6, extra=("present",), relevant=heads("present", "presented"), nontrivial=nt_adf, label="adf-orders"),
-          Job("adf", 120, 4000, size=90, size_thorough=130, extra=("wide",), relevant=heads("build", "adopt", "stable", "stablepre", "adump", "wfcheck"), nontrivial=lambda st: int(st.get("n", 0)) >= 65, label="wide")],
+          Job("adf", 120, 4000, size=90, size_thorough=130, extra=("wide",), relevant=heads("build", "adopt", "stable", "stablepre", "adump", "wfcheck"), nontrivial=lambda st: int(st.get("n", 0)) >= 65, label="wide"),
+          Job("adf", 40, 1200, size=0, extra=("deepund",), relevant=heads("build", "adopt", "stable", "stablepre", "adump", "wfcheck"), nontrivial=lambda st: int(st.get("n", 0)) >= 10,
+              label="deep-undecided", chunk_min=3, timeout=900)],
     rule=SEM_RULE,
     assumptions=["well-formed ADFs"],
 )
@@ -618,13 +620,15 @@ ROUND2B = {
  "C10": " Second pass: an_sort_is_varsort_alphanum, varsort_alphanum_unique (the natural order is total, transitive and antisymmetric on all labels: NatLexOrder); output invariance composed for the counting, pre-filter, nogood and two-valued sections.",
  "C11": " Second pass: query_answers_exact (queries get real content: counts, paths, depth and dependency sets against truth tables), ORDER across histories: stable_answers_equal_after_history, complete_order_equal_after_history, ng_order_history_independent (the nogood search lists the same decided parts in the same order on DIFFERENT node tables, every heuristic and bound: its heuristics read only positions, path counts and dependency sets); order_across_histories_partial (open: the two counting searches); "
         "memoised_count_is_the_reimport_exception; same_seed_same_answers for an abstract deterministic generator (StdRng itself is not modelled); history_after_roundtrip_lists / searches_after_roundtrip_lists / nogood_after_roundtrip_lists (with C14: after both persistence round trips every history returns the SAME LISTS - order and handle numbers).",
+ "C14": " Second pass: the CLI's --export / --import in a modelled FILE SYSTEM (CliIO: runTextIO over a finite map path -> text): export_never_overwrites_fs (every path that existed keeps its content, for every invocation), export_writes_only_target, export_happens_iff, export_then_import_prints_same (same blocks, same order, no halting hypothesis); "
+        "the REAL exported file of every cliexport case is parsed by the verified reader, compared with the state the model builds from the same input text, re-printed byte for byte, and imported by the model's --import arm (cliexportfile).",
  "C12": " Second pass: var_dependencies_card (the number of distinct dependency entries equals the number of essential variables, under every feature set).",
  "C13": " Second pass: paths_word_exact / more_models_paths_word_iff (64-bit path counts agree with the naturals below the word size), cubes_terminal_not_cover (the terminal exception stated).",
  "C15": " Second pass: hybrid_arm_rewriting_section + hybrid_arm_runs_the_verified_bridge; fuel_monotone, halted_from_some_bound_on and cli_text_faithful_every_large_bound for ALL arms incl. hybrid with --twoval/--stmng (no fuel hypothesis; the output is constant from some bound on); an_prints_in_natural_lexical_order; store_world_faithful (the store-based library as a world: the biodivine and hybrid arms of the model now also run for 65-130 statements, except --stmrew2); "
         "the REJECTION branches of the model run against the binary (clibadrun carries the malformed text); stmrew_loses_model_on_duplicate_condition referenced as the visible exception.",
  "C16": " Second pass: dump hypotheses bounded (the unbounded form was unsatisfiable) with kernel-checked instance and reachable_served_answer_tt (no library hypothesis left); biodivine's variable-name check in the hybrid parse model (hybrid_parse_rejects_special_labels: D6 through the web); accepted_solve_eventually_stored (not only safety); NoStaleWrite / NoLostWrite with write_visible_iff_not_lost; running_entries_are_unfinished_tasks over all reachable states; "
         "fuel monotonicity and all-bounds restatements (solve_fuel_monotone, stored_answers_exact_all_bounds); add_race_breaks_the_sentence (D14) with sequential_requests_sentence_partial.",
- "C17": " Second pass: noninterference_statement PROVED at request granularity (noninterference_full: only name re-use while the old owner still holds something and a successful foreign login are excluded; every other foreign mention of a name in use is a permitted conflict), response_determined_by_own_results at command granularity. Open: noninterference at command granularity.",
+ "C17": " Second pass: noninterference_statement PROVED at request granularity (noninterference_full: only name re-use while the old owner still holds something and a successful foreign login are excluded; every other foreign mention of a name in use is a permitted conflict), response_determined_by_own_results at command granularity. Open: noninterference at command granularity. TIE widened: a second name alphabet (names with / % ? # + space, quotes, non-ASCII; colliding pairs such as user x + problem y/z vs user x/y + problem z) with percent-encoded path segments, the router's behaviour on raw and doubly encoded segments modelled in the driver (segName), and the scheduled mode runkey (user B's GET and solve while user A's task under a colliding key is still running).",
  "C19": " Second pass: bounded_forwarding (safety for bounded relay channels).",
 }
 for _p, _t in ROUND2B.items():
